@@ -3,7 +3,6 @@ package main
 import (
 	"go/token"
 	"go/types"
-	"sort"
 	"strings"
 
 	"golang.org/x/tools/go/ssa"
@@ -12,8 +11,6 @@ import (
 func init() {
 	register(&Rule{Name: "VALIDATE-DP", Floor: 3, Run: ruleValidateDP,
 		Doc: "[shape] the subject validator's table is filled by the recurrence fits[i][j] = (subject attribute j equals profile attribute i and fits[i+1][j+1]) or (profile attribute i is optional and fits[i+1][j]), starts from fits[len][len] = true, and the verdict is fits[0][0]; with allowOther the verdict is that every non-optional attribute occurs in the subject"})
-	register(&Rule{Name: "MERGE-HANDLED", Floor: 2, Run: ruleMergeHandled,
-		Doc: "[shape] in the merge, every certificate extension that is matched by a profile entry (same OID) is recorded as handled on every path out of the match, so a later profile entry of the same OID takes the next unmatched one"})
 }
 
 type dpRenderer struct {
@@ -274,102 +271,6 @@ func dpPaths(d *dpRenderer, from, to *ssa.BasicBlock, limit int) ([][]literal, b
 	}
 	walk(from, nil, map[*ssa.BasicBlock]bool{})
 	return out, ok
-}
-
-func ruleMergeHandled(c *Ctx, r *Rep) {
-	merge := c.Func("generator/config", "Merge")
-	if merge == nil {
-		r.Undecided("anchor:Merge", "", "not found")
-		return
-	}
-	fk := c.FuncKey(merge)
-	// the match test: Oid().Equal(Oid()) of two ExtensionConfig values
-	var matchIf *ssa.If
-	for _, b := range merge.Blocks {
-		iff, ok := lastInstr(b).(*ssa.If)
-		if !ok {
-			continue
-		}
-		call, ok := iff.Cond.(*ssa.Call)
-		if !ok || calleeFullName(call) != "(encoding/asn1.ObjectIdentifier).Equal" {
-			continue
-		}
-		isOidCall := func(v ssa.Value) bool {
-			cc, ok := v.(*ssa.Call)
-			return ok && cc.Call.IsInvoke() && cc.Call.Method.Name() == "Oid"
-		}
-		if isOidCall(call.Call.Args[0]) && isOidCall(call.Call.Args[1]) {
-			matchIf = iff
-		}
-	}
-	if matchIf == nil {
-		r.Undecided("shape:"+fk, c.FnPos(merge), "no `profExt.Oid().Equal(certExt.Oid())` test found")
-		return
-	}
-	// the handled list: the []int that is scanned with `ix == i` before the match test
-	var handled ssa.Value
-	for _, b := range merge.Blocks {
-		for _, ins := range b.Instrs {
-			bin, ok := ins.(*ssa.BinOp)
-			if !ok || bin.Op != token.EQL {
-				continue
-			}
-			// ix (element of an []int) == i (index of the certificate extension loop)
-			if u, ok := bin.X.(*ssa.UnOp); ok {
-				if ia, ok := u.X.(*ssa.IndexAddr); ok {
-					if sl, isSl := ia.X.Type().Underlying().(*types.Slice); isSl && types.Identical(sl.Elem(), types.Typ[types.Int]) && b.Dominates(matchIf.Block()) == false && canReachBlock(b, matchIf.Block()) {
-						handled = rootPhi(ia.X)
-					}
-				}
-			}
-		}
-	}
-	if handled == nil {
-		r.Undecided("shape:"+fk, c.FnPos(merge), "no scan of a handled-index list before the match test")
-		return
-	}
-	// the appends to that list inside the match region
-	T := matchIf.Block().Succs[0]
-	region := regionBlocks(T)
-	var appends []*ssa.Call
-	for b := range region {
-		for _, ins := range b.Instrs {
-			if call, ok := ins.(*ssa.Call); ok {
-				if bi, isB := call.Call.Value.(*ssa.Builtin); isB && bi.Name() == "append" && rootPhi(call.Call.Args[0]) == handled {
-					appends = append(appends, call)
-				}
-			}
-		}
-	}
-	r.Check(len(appends) > 0, "match-records-index|"+fk, c.Pos(matchIf.Pos()), "the matched certificate extension's index is appended to the handled list inside the match", sprintf("%d appends", len(appends)))
-	// every exit of the match region passed an append
-	var exits []*ssa.BasicBlock
-	for b := range region {
-		for _, s := range succs(b) {
-			if !region[s] {
-				exits = append(exits, b)
-			}
-		}
-		if _, isRet := lastInstr(b).(*ssa.Return); isRet {
-			if ret := lastInstr(b).(*ssa.Return); !returnsNonNilError(ret) {
-				exits = append(exits, b)
-			}
-		}
-	}
-	sort.Slice(exits, func(i, j int) bool { return exits[i].Index < exits[j].Index })
-	bad := 0
-	for _, e := range exits {
-		covered := false
-		for _, a := range appends {
-			if a.Block() == e || a.Block().Dominates(e) {
-				covered = true
-			}
-		}
-		if !covered {
-			bad++
-		}
-	}
-	r.Check(len(exits) > 0 && bad == 0, "handled-on-every-exit|"+fk, c.Pos(matchIf.Pos()), "every way out of the match (override, identical, differing) has recorded the index", sprintf("%d of %d exits without the record", bad, len(exits)))
 }
 
 func canReachBlock(a, b *ssa.BasicBlock) bool {
